@@ -134,7 +134,7 @@ def rule_forward(prog: Program, modules: Optional[Set[str]] = None) -> List[Inst
     for fi in prog.all_functions(modules):
         if fi.is_stub or isinstance(fi.node, ast.Lambda):
             continue
-        params = [p for p in fi.param_names() if p not in ("self", "cls") and p in _optional_params(fi)]
+        params = [p for p in fi.param_names() if p not in ("self", "cls")]
         if not params:
             continue
         org = Origins(fi)
